@@ -22,10 +22,10 @@ type Mutant struct {
 }
 
 type mutWalk struct {
-	target   int
-	ctr      int
-	done     bool
-	out      *Mutant
+	target    int
+	ctr       int
+	done      bool
+	out       *Mutant
 	countOnly bool
 }
 
